@@ -51,6 +51,8 @@ func rulesC08(c *Ctx) {
 	R.Rule("R1", "request types sent to a mint: blinding factors only possible inside Proof.DLEQ of input-carrying requests; no private keys", 8)
 	R.Rule("R2", "Inputs of every swap/melt request are clean (DLEQ stripped) on all paths, through sanitiser summaries and callers", 4)
 	R.Rule("R3", "the network layer never reads or writes the r field", 1)
+	R.Rule("R4", "a blinding factor is a fresh key or the NUT-13 derivation and the secret of the same output is not computed from it (the secret is shown to the mint when the output is spent)", 4)
+	c.c08BlindingFactorIndependent("R4")
 
 	// ---- R1: every json.Marshal in the network layer
 	netPkgs := map[string]bool{"wallet/client": true, "wallet/submanager": true}
@@ -412,4 +414,119 @@ func fieldPath(e *Ex) []string {
 		rev[i], rev[j] = rev[j], rev[i]
 	}
 	return rev
+}
+
+// c08BlindingFactorIndependent: R4. A secret reaches the mint when the output is spent, so a blinding factor must not be
+// recoverable from its own secret. Decided structurally at every wallet call of crypto.BlindMessage: each alternative of
+// the r argument is a value of a generator of the reference tree - a fresh key (secp256k1.GeneratePrivateKey), the NUT-13
+// blinding factor (DeriveBlindingFactor), or result #1 of the wallet's two secret generators, which are held to the same
+// rule - and the secret argument is not computed from that value or from the bytes it was made of.
+func (c *Ctx) c08BlindingFactorIndependent(rule string) {
+	R := c.R
+	isGen := func(e *Ex) bool {
+		if e == nil || e.K != "call" {
+			return false
+		}
+		switch {
+		case e.S == "secp256k1.GeneratePrivateKey" && e.Idx == 0:
+			return true
+		case strings.HasSuffix(e.S, "nut13.DeriveBlindingFactor") && e.Idx == 0:
+			return true
+		case (e.S == "wallet.generateRandomSecret" || e.S == "wallet.generateDeterministicSecret") && e.Idx == 1:
+			return true
+		}
+		return false
+	}
+	// the secret is not made from r: no node of the secret's provenance is the r value itself, and no call result
+	// or buffer feeds both
+	shares := func(sec, r *Ex) string {
+		atoms := map[string]bool{}
+		// r is a generator result (checked by the caller): the only thing the secret must not contain is that value
+		if r.Call != nil {
+			atoms[fmt.Sprintf("%p#%d", r.Call, r.Idx)] = true
+		}
+		hit := ""
+		var look func(e *Ex)
+		look = func(e *Ex) {
+			if e == nil || hit != "" {
+				return
+			}
+			switch e.K {
+			case "call":
+				if e.Call != nil && atoms[fmt.Sprintf("%p#%d", e.Call, e.Idx)] {
+					hit = e.String()
+				}
+			case "addr", "local", "make", "alloc", "out":
+				if atoms[e.String()] {
+					hit = e.String()
+				}
+			}
+			for _, a := range e.Args {
+				look(a)
+			}
+		}
+		look(sec)
+		return hit
+	}
+	n := 0
+	for _, f := range c.P.Funcs {
+		top := EnclosingTop(f)
+		if top.Pkg == nil {
+			continue
+		}
+		rel := c.P.Rel(top.Pkg.Pkg.Path())
+		if rel != "wallet" {
+			continue
+		}
+		o := c.P.OriginsOf(f)
+		for _, ci := range Calls(f) {
+			d := c.P.Describe(ci)
+			if d.Name != "crypto.BlindMessage" || len(d.Args) != 2 {
+				continue
+			}
+			n++
+			sec, r := o.Of(d.Args[0]), o.Of(d.Args[1])
+			ok, why := true, ""
+			for _, ra := range r.Alts() {
+				if !isGen(ra) {
+					ok, why = false, "blinding factor is "+short(ra.String(), 160)+", not a fresh key or the NUT-13 blinding factor"
+					continue
+				}
+				if h := shares(sec, ra); h != "" {
+					ok, why = false, "the secret is computed from what the blinding factor is made of: "+short(h, 160)
+				}
+			}
+			R.Check(rule, c.P.FuncKey(f), "blinding factor is fresh / derived and independent of the secret", c.P.InstrPos(ci), ok,
+				"r is a fresh key or the NUT-13 blinding factor, and the secret of the same output is not computed from it", why)
+		}
+	}
+	for _, key := range []string{"wallet.generateRandomSecret", "wallet.generateDeterministicSecret"} {
+		f := c.P.Func(key)
+		if f == nil {
+			continue
+		}
+		o := c.P.OriginsOf(f)
+		for _, ret := range o.SuccessReturns() {
+			if len(ret.Results) < 2 {
+				continue
+			}
+			n++
+			sec, r := o.Of(ret.Results[0]), o.Of(ret.Results[1])
+			ok, why := true, ""
+			for _, ra := range r.Alts() {
+				if !isGen(ra) || ra.S == key {
+					ok, why = false, "blinding factor is "+short(ra.String(), 160)
+					continue
+				}
+				if h := shares(sec, ra); h != "" {
+					ok, why = false, "the secret is computed from what the blinding factor is made of: "+short(h, 160)
+				}
+			}
+			R.Check(rule, c.P.FuncKey(f), "generator: blinding factor independent of the secret", c.P.InstrPos(ret), ok,
+				"the generator hands back a fresh / NUT-13 blinding factor and a secret that is not computed from it", why)
+		}
+	}
+	if n < 3 {
+		R.Unresolved(rule, "wallet calls of crypto.BlindMessage", fmt.Sprintf("found %d sites, expected at least 3", n))
+	}
 }
